@@ -725,6 +725,38 @@ def gen_raw(rng):
     return case
 
 
+def gen_huge(rng):
+    """Sizes beyond every internal buffer (8 KiB reads, 64 KiB): hundreds of pairs and very long values."""
+    kind = rng.choice(['many-pairs', 'long-value', 'both'])
+    npairs = rng.choice([70, 130, 300, 700]) if kind != 'long-value' else rng.randint(1, 4)
+    keys = ['k%d' % i for i in range(rng.choice([1, 3, 40]))] + ['\u00e9\U0001f600']
+    hexcase = rng.choice(['upper', 'lower', 'mixed'])
+    style = rng.choice(['minimal', 'mixed'])
+    truth_q, truth_b, qfrags, bfrags = [], [], [], []
+    for i in range(npairs):
+        k = rng.choice(keys)
+        if kind != 'many-pairs' and i == 0:
+            unit = gen_text(rng, 'full') or 'v'
+            v = (unit * (rng.choice([9000, 20000, 70000]) // len(unit) + 1))
+        else:
+            v = gen_text(rng, 'full')
+        if rng.random() < 0.25 and len(v) < 200:
+            f = enc_query_text(rng, k, 'utf8', style, hexcase, True) + b'=' + \
+                enc_query_text(rng, v, 'utf8', style, hexcase, True)
+            truth_q.append((k, v))
+            qfrags.append(f)
+        else:
+            f = enc_body_bytes(rng, k.encode('utf-8'), style, hexcase) + b'=' + \
+                enc_body_bytes(rng, v.encode('utf-8'), style, hexcase)
+            truth_b.append((k, v))
+            bfrags.append(f)
+    case = {'kind': 'req', 'q': join_frags(rng, qfrags, False).hex(), 'qs_enc': None, 'method': 'POST',
+            'b': join_frags(rng, bfrags, False).hex(), 'declared': rng.choice([None, 'utf-8']), 'attempt_cfg': None,
+            'scenario': 'huge-' + kind, 'truth': [list(p) for p in truth_q + truth_b],
+            'qfrags': [f.hex() for f in qfrags], 'bfrags': [f.hex() for f in bfrags]}
+    return case
+
+
 def nontrivial(case):
     q = bytes.fromhex(case['q'])
     b = bytes.fromhex(case['b']) if case.get('b') else b''
@@ -859,6 +891,8 @@ def unit_parse_qs(text, enc='utf-8'):
         return httputil.parse_query_string(text, encoding=enc)
     except UnicodeDecodeError:
         return 'unicode'
+    except Exception as e:               # any other exception would be a 500 in a request
+        return 'raised ' + type(e).__name__
 
 
 def unit_urlencoded(data, attempts=('utf-8',)):
@@ -869,6 +903,8 @@ def unit_urlencoded(data, attempts=('utf-8',)):
         _cpreqbody.process_urlencoded(ent)
     except cherrypy.HTTPError as e:
         return e.status
+    except Exception as e:
+        return 'raised ' + type(e).__name__
     return ent.params
 
 
@@ -894,7 +930,11 @@ def check_units(ctx, strings, enc='utf-8', attempts=('utf-8',), compare=True):
         rq = unit_parse_qs(s, enc)
         rb = unit_urlencoded(raw, attempts)
         ctx.count('unit_qs:' + (rq if isinstance(rq, str) else 'ok'))
-        ctx.count('unit_body:' + (str(rb) if isinstance(rb, int) else 'ok'))
+        ctx.count('unit_body:' + (str(rb) if isinstance(rb, (int, str)) else 'ok'))
+        for name, r in (('parse_query_string', rq), ('process_urlencoded', rb)):
+            if isinstance(r, str) and r.startswith('raised'):
+                ctx.oracle_fail({'kind': 'unit', 's': s, 'enc': enc, 'attempts': list(attempts)},
+                                '%s(%r) %s (neither parameters nor a 404/400 refusal)' % (name, s, r), None)
         # oracle (well-formed escapes only)
         eq = oracle_query(raw, enc)
         if eq is not None:
@@ -916,6 +956,8 @@ def check_units(ctx, strings, enc='utf-8', attempts=('utf-8',), compare=True):
                 ctx.disagree({'kind': 'unit_qs', 's': s, 'enc': enc}, rq, mq, 'parse_query_string differs')
             mb = lines[n + i]
             mb = parse_params(mb[2:]) if mb.startswith('P ') else int(mb[2:])
+            if isinstance(rq, str) and rq.startswith('raised') or isinstance(rb, str):
+                continue
             if mb != rb:
                 ctx.disagree({'kind': 'unit_body', 's': s, 'attempts': list(attempts)}, rb, mb,
                              'process_urlencoded differs')
@@ -928,7 +970,12 @@ def check_pct_items(ctx):
     items += [bytes([a, b, 0x41]) for a in (0x20, 0x32, 0x2d, 0x67) for b in range(256)]
     lines = ctx.model(['uqb ' + hx(b'%' + it) for it in items])
     for i, it in enumerate(items):
-        real = unquote_plus(b'%' + it)
+        try:
+            real = unquote_plus(b'%' + it)
+        except Exception as e:
+            ctx.oracle_fail({'kind': 'uqb', 'b': (b'%' + it).hex()},
+                            'unquote_plus(%r) raised %s' % (b'%' + it, type(e).__name__), None)
+            continue
         ctx.case({'kind': 'uqb', 'b': (b'%' + it).hex()}, nontrivial=False)
         if lines is not None:
             if hx(real) != lines[i]:
@@ -1029,7 +1076,9 @@ def gen_mixed(rng, n):
     out = []
     for i in range(n):
         r = rng.random()
-        if r < 0.70:
+        if i % 400 == 399:
+            out.append(gen_huge(rng))
+        elif r < 0.70:
             out.append(gen_request(rng, big=(i % 25 == 24)))
         elif r < 0.84:
             out.append(gen_undecodable(rng))
@@ -1072,14 +1121,14 @@ def run(ctx):
     check_requests(ctx, first)
     check_pct_items(ctx)
     check_codecs(ctx, ctx.budget(600, 20000))
-    check_units(ctx, small_strings(ctx.budget(4, 6)))
+    check_units(ctx, small_strings(ctx.budget(5, 6)))
     check_units(ctx, small_strings(3, 'a%e9+='), enc='latin-1', attempts=('ascii', 'latin-1'))
     check_requests(ctx, list(small_requests(ctx.budget(3, 4))))
     ctx.extra['exhaustive_small_scope'] = ('all strings of length <= %d over {a %% 2 6 + & = ;} as query and as body '
                                            '(units), length <= %d through WSGI; all %%X / %%XY items'
-                                           % (ctx.budget(4, 6), ctx.budget(3, 4)))
+                                           % (ctx.budget(5, 6), ctx.budget(3, 4)))
     if ctx.quick():
-        check_requests(ctx, gen_mixed(ctx.rng, 3000))
+        check_requests(ctx, gen_mixed(ctx.rng, 8000))
     else:
         jobs = [(ctx.rng.getrandbits(48), 12500, ctx.tier) for _ in range(24)]
         for res in common.parallel_map(_worker, jobs):
